@@ -166,6 +166,12 @@ def specs(draw, max_steps=25, server=True):
             # the call goes through an unpickled copy of the cached wrapper (what a worker process receives)
             step["via_pickle"] = draw(st.integers(0, 5)) == 0
         steps.append(step)
+        if server and op == "call" and step.get("carrier") in ("pA", "pB") and draw(st.integers(0, 1)) == 0:
+            # two partial objects of one function share a store identifier: the sibling partial is used by ANOTHER process
+            # on the same arguments, then this process repeats its call
+            other = "pB" if step["carrier"] == "pA" else "pA"
+            steps.append(dict(step, op="server", carrier=other, elsewhere_first=False, via_pickle=False))
+            steps.append(dict(step, elsewhere_first=False, via_pickle=False))
     return {"sigs": sigs, "ignore": ignores, "compress": draw(st.sampled_from([False, True, 1, 9])), "steps": steps,
             "verbose": draw(st.sampled_from([0, 0, 0, 1, 2, 11]))}
 
@@ -316,9 +322,6 @@ def run(spec, scratch, server=None):
                     rec["skipped"] = "partial-needs-positional"
                     continue
                 a_specs = a_specs[1:]
-                if op == "server":
-                    rec["skipped"] = "partial-not-on-server"
-                    continue
             plain = m.plain(fi, carrier)
             shared = {}
             share = bool(step.get("share"))
@@ -377,7 +380,7 @@ def run(spec, scratch, server=None):
                         continue
                     r = server.ask({"scratch": m.scratch, "module": m.mod.__name__, "location": m.location,
                                     "compress": spec["compress"], "ignore": {k: sorted(v) for k, v in MF.IGNORE.items()},
-                                    "jl_ignore": list(ignore), "f": fi, "carrier": step["carrier"],
+                                    "jl_ignore": [] if carrier in ("pA", "pB") else list(ignore), "f": fi, "carrier": step["carrier"],
                                     "args": a_specs, "kwargs": k_specs, "perm": step["perm"] + 1,
                                     "verbose": spec.get("verbose", 0), "via_pickle": bool(step.get("via_pickle"))})
                     rec.update(r)
